@@ -24,7 +24,7 @@ struct ChaosRun : NodeEnv {
         if (feat & F_1005) add_typed(v, T_SYNCID, 0x1005, 0, CO_OBJ_____RW, ((feat & F_SYNCPROD) && (feat & F_1006) ? 0x40000000u : 0) | 0x80u);
         if (feat & F_1006) add_typed(v, T_SYNCCYCLE, 0x1006, 0, CO_OBJ_____RW, (uint32_t)plan.c("synccycle", 5000));
         if (feat & F_PARA) { int ns = (int)plan.c("nsub", 2) % 5 + 1; size_t ng = ns == 1 ? 1 : (size_t)ns - 1; uint32_t off = 0; for (size_t i = 0; i < ng; i++) { ParaSpec ps; ps.offset = off; ps.size = (uint32_t)r.range(1, 64); ps.type = r.below(2) ? CO_RESET_COM : CO_RESET_NODE; ps.value = r.below(4) ? CO_PARA___E : 0; off += ps.size; paras.push_back(ps); } nvmSize = off + (r.below(3) ? 8 : 0) - (r.below(4) == 0 && off > 2 ? 2 : 0);
-            add_typed(v, T_PARASTORE, 0x1010, 0, CO_OBJ_D___R_, (uint32_t)ns); add_typed(v, T_PARARESTORE, 0x1011, 0, CO_OBJ_D___R_, (uint32_t)ns); for (int s2 = 1; s2 <= ns; s2++) { int gi = ns == 1 ? 0 : s2 == 1 ? 0 : s2 - 2; add_typed(v, T_PARASTORE, 0x1010, (uint8_t)s2, CO_OBJ_____RW, 0, gi); add_typed(v, T_PARARESTORE, 0x1011, (uint8_t)s2, CO_OBJ_____RW, 0, gi); } }
+            add_typed(v, T_PARASTORE, 0x1010, 0, CO_OBJ_D___R_, (uint32_t)ns); add_typed(v, T_PARARESTORE, 0x1011, 0, CO_OBJ_D___R_, (uint32_t)ns); int gapSub = ns >= 3 && r.chance(1, 3) ? (int)r.range(2, ns) : 0; /* a sub-index that is not implemented */ for (int s2 = 1; s2 <= ns; s2++) { if (s2 == gapSub) continue; int gi = ns == 1 ? 0 : s2 == 1 ? 0 : s2 - 2; add_typed(v, T_PARASTORE, 0x1010, (uint8_t)s2, CO_OBJ_____RW, 0, gi); add_typed(v, T_PARARESTORE, 0x1011, (uint8_t)s2, CO_OBJ_____RW, 0, gi); } }
         if (feat & F_1014) add_typed(v, T_EMCYID, 0x1014, 0, CO_OBJ__N__RW, 0x80);
         if (feat & F_1016) { int n = (int)plan.c("ncons", 2) % 4 + 1; add_typed(v, T_HBCONS, 0x1016, 0, CO_OBJ_D___R_, (uint32_t)n); for (int i = 1; i <= n; i++) add_typed(v, T_HBCONS, 0x1016, (uint8_t)i, CO_OBJ_____RW, r.below(3) ? (uint32_t)r.range(1, 50) : 0, 10 + i); }
         if (feat & F_1017) add_typed(v, T_HBPROD, 0x1017, 0, CO_OBJ_____RW, (uint32_t)plan.c("hb", 10));
